@@ -212,7 +212,7 @@ def evaluate(case, ctx):
             viols += hv
             continue
         if res.exit != 0:
-            if C.is_buffer_too_small(res):
+            if C.is_buffer_too_small(res, v):
                 continue
             viols.append(C.V("exit-status", f"{name}: exit status {res.exit} but the reference variant succeeded; dims {v['dims']}; stderr tail {res.stderr[-300:]!r}"))
             continue
